@@ -65,7 +65,24 @@ fn rand_leaf_shape(rng: &mut Rng, layers: &[i16]) -> (GdsElement, LeafShape) {
     let layer = *rng.pick(layers);
     let dtype = rng.range(0, 2) as i16;
     let o = (rng.range(-2000, 2000), rng.range(-2000, 2000));
-    match rng.below(9) {
+    match rng.below(10) {
+        9 => {
+            // an exact rectangle that is NOT axis-aligned (45-degree wire ends, diamonds): p, p+u, p+u+v, p+v with v perpendicular to u
+            let (a, b) = loop {
+                let (a, b) = (rng.range(-40, 40), rng.range(-40, 40));
+                if a != 0 && b != 0 {
+                    break (a, b);
+                }
+            };
+            let t = rng.range(1, 5);
+            let (u, v) = ((a, b), (-b * t, a * t));
+            let mut q = vec![o, (o.0 + u.0, o.1 + u.1), (o.0 + u.0 + v.0, o.1 + u.1 + v.1), (o.0 + v.0, o.1 + v.1)];
+            q.rotate_left(rng.usize(4));
+            if rng.bool() {
+                q.reverse();
+            }
+            (GdsBoundary { layer, datatype: dtype, xy: closed(&q), ..Default::default() }.into(), LeafShape { layer, dtype, geo: Geo::Poly(q) })
+        }
         8 => {
             // a huge triangle with a long edge of slope ~1: coordinate differences whose products exceed 2^53
             let m = (1i64 << *rng.pick(&[26u32, 27, 28, 29])) - rng.range(0, 5);
@@ -184,8 +201,18 @@ fn gen_valid(rng: &mut Rng, big_arrays: bool) -> GenLib {
     let layers: Vec<i16> = (0..1 + rng.usize(3)).map(|_| rng.range(0, 60) as i16).collect();
     let mut structs: Vec<GdsStruct> = Vec::new();
     let mut own = BTreeMap::new();
+    // structure names: plain indices, or families that real libraries have - names differing only in letter case, and long names that share
+    // their first 32 characters (parametric device names)
+    let family = rng.below(4);
+    let names: Vec<String> = (0..nstructs)
+        .map(|i| match family {
+            0 => ["via", "VIA", "Via", "vIa", "viA", "VIa"][i].to_string(),
+            1 => format!("sky130_fd_pr__rf_nfet_01v8_lvt_aM02W1p65L0p{}", 15 + i),
+            _ => format!("s{}", i),
+        })
+        .collect();
     for i in 0..nstructs {
-        let name = format!("s{}", i);
+        let name = names[i].clone();
         let mut s = GdsStruct::new(name.clone());
         let mut shapes = Vec::new();
         let mut texts = Vec::new();
@@ -257,7 +284,7 @@ fn gen_valid(rng: &mut Rng, big_arrays: bool) -> GenLib {
         // references to earlier structs
         if i > 0 {
             for _ in 0..rng.usize(4) {
-                let target = format!("s{}", rng.usize(i));
+                let target = names[rng.usize(i)].clone();
                 let reflect = rng.bool();
                 let quarter = if rng.chance(1, 4) { None } else { Some(rng.range(0, 3)) };
                 let loc = (rng.range(-5000, 5000), rng.range(-5000, 5000));
